@@ -204,7 +204,7 @@ CANON = {
     "sunmd5": b"$md5,rounds=5$saltsalt$", "sha1crypt": b"$sha1$24$saltsalt$", "nt": b"$3$", "descrypt": b"ab", "bigcrypt": b"ab............",
     "bsdicrypt": b"_J9..salt", "bcrypt": b"$2b$04$abcdefghijklmnopqrstuu", "bcrypt_a": b"$2a$04$abcdefghijklmnopqrstuu",
     "bcrypt_x": b"$2x$04$abcdefghijklmnopqrstuu", "bcrypt_y": b"$2y$04$abcdefghijklmnopqrstuu",
-    "scrypt": b"$7$6..../....saltsalt", "yescrypt": b"$y$j75$saltsaltsalt", "gost_yescrypt": b"$gy$j75$saltsaltsalt",
+    "scrypt": b"$7$66..../....saltsalt", "yescrypt": b"$y$j75$saltsaltsalt", "gost_yescrypt": b"$gy$j75$saltsaltsalt",
 }
 CANON_DANGER = {"sha256crypt": [(10, 14)], "sha512crypt": [(10, 14)], "sunmd5": [(12, 13)], "sha1crypt": [(6, 8)], "bsdicrypt": [(1, 5)],
                 "bcrypt": [(4, 6)], "bcrypt_a": [(4, 6)], "bcrypt_x": [(4, 6)], "bcrypt_y": [(4, 6)], "scrypt": [(3, 14)],
